@@ -78,6 +78,12 @@ TARGET_CONSTRUCTS = [("$T", "__xonsh__.env['T']"), ("${t}", "__xonsh__.env[str(t
 OTHER_TARGET_CONTEXTS = ["{} += 1\n", "{}: int = 1\n", "del {}\n", "{}.a = 1\n", "{}[0] = 1\n", "del {}[0]\n", "for {}.a in y:\n    pass\n", "{}: int\n", "x: {} = 1\n", "def f(a: {}) -> {}:\n    pass\n", "@{}\ndef f(): pass\n"]
 
 
+# pattern positions of a match statement: most constructs are refused there; whatever is accepted must still be a tree compile() takes
+PATTERN_CONTEXTS = ["match v:\n    case {}:\n        pass\n", "match v:\n    case {{ {}: 1}}:\n        pass\n", "match v:\n    case [1, {}, *r]:\n        pass\n", "match v:\n    case A(k={}):\n        pass\n",
+                    "match v:\n    case {} | 2:\n        pass\n", "match v:\n    case ({} as w):\n        pass\n", "match v:\n    case {{'k': {}}}:\n        pass\n", "match v:\n    case A({}, 2):\n        pass\n",
+                    "match {}:\n    case {}:\n        pass\n", "match v:\n    case 1 if {}:\n        pass\n", "match v:\n    case {}.attr:\n        pass\n", "match v:\n    case -{}:\n        pass\n"]
+
+
 def fill(ctx, texts):
     """fill the holes of ctx left to right with texts (cycled); returns (program, list of (start_offset, text))"""
     out = []
